@@ -1,5 +1,6 @@
 import Model.Types
 import Gen.Layouts
+import Gen.SigLayouts
 
 /-!
 GenTie.Layout — the byte layout of the eight record classes of datatypes.py, regenerated from `stream_deserialize` (as a codec
@@ -71,5 +72,61 @@ theorem model_codecs_are_translated :
       (BlockHeader.reader Summary.codec Evidence.codec) ∧
     BlockC.codec = iso (fun p => ⟨p.1, p.2⟩) (fun b => (b.header, b.txs)) (Block.reader Header.codec Tx.codec) := by
   refine ⟨rfl, rfl, rfl, rfl, rfl, rfl, rfl, rfl⟩
+
+/-! ### signatures and public keys (signing.py): type byte, then the variant -/
+
+open Gen.SigLayout in
+/-- the dispatch tables: three kinds of signature field (placeholder 0, reward data 1, SECP256k1 signature 2), one kind of key -/
+theorem type_byte_dispatch :
+    Signature.dispatch = [(0, "SignableEquivalent"), (1, "CoinbaseData"), (2, "SECP256k1Signature")] ∧
+    PublicKey.dispatch = [(2, "SECP256k1PublicKey")] := by decide
+
+open Gen.SigLayout in
+/-- every variant's encoder writes the type byte its dispatcher tests for, then what the variant's decoder reads -/
+theorem variants_write_tag_then_what_is_read :
+    SignableEquivalent.writerItems = ("const", "0", "") :: [] ∧ SignableEquivalent.readerItems = [] ∧
+    CoinbaseData.writerItems.head? = some ("const", "1", "") ∧
+      agree CoinbaseData.writerItems.tail CoinbaseData.readerItems = true ∧
+    SECP256k1Signature.writerItems.head? = some ("const", "2", "") ∧
+      agree SECP256k1Signature.writerItems.tail SECP256k1Signature.readerItems = true ∧
+    SECP256k1PublicKey.writerItems.head? = some ("const", "2", "") ∧
+      agree SECP256k1PublicKey.writerItems.tail SECP256k1PublicKey.readerItems = true ∧
+    CoinbaseData.ctor = fieldsOf CoinbaseData.readerItems ∧
+    SECP256k1Signature.ctor = fieldsOf SECP256k1Signature.readerItems ∧
+    SECP256k1PublicKey.ctor = fieldsOf SECP256k1PublicKey.readerItems := by decide
+
+open Gen.SigLayout in
+/-- the model's key codec is the regenerated one behind its type byte -/
+theorem pk_codec_is_translated :
+    pkCodec = iso (fun p => p.2) (fun k => ((), k)) (seq (const [2]) SECP256k1PublicKey.reader) := rfl
+
+open Gen.SigLayout in
+/-- the model's signature-field decoder is the regenerated dispatch over the regenerated variant decoders -/
+theorem sig_codec_dec_is_translated (bs : Bytes) :
+    Sig.codec.dec bs =
+      match bs with
+      | [] => none
+      | t :: r =>
+        if t = 0 then (match SignableEquivalent.reader.dec r with | none => none | some (_, r') => some (.signable, r'))
+        else if t = 1 then
+          (match CoinbaseData.reader.dec r with | none => none | some ((h, d), r') => some (.coinbase h d, r'))
+        else if t = 2 then
+          (match SECP256k1Signature.reader.dec r with | none => none | some (x, r') => some (.secp x, r'))
+        else none := by
+  cases bs with
+  | nil => rfl
+  | cons t r =>
+    simp only [Sig.codec, SignableEquivalent.reader, CoinbaseData.reader, SECP256k1Signature.reader, Codec.skip,
+      List.length_nil, Nat.zero_le, ↓reduceIte, List.drop_zero]
+    split <;> first | rfl | (split <;> first | rfl | (split <;> rfl))
+
+open Gen.SigLayout in
+theorem sig_codec_enc_is_translated (s : Sig) :
+    Sig.codec.enc s =
+      match s with
+      | .signable => [0] ++ SignableEquivalent.reader.enc ()
+      | .coinbase h d => [1] ++ CoinbaseData.reader.enc (h, d)
+      | .secp x => [2] ++ SECP256k1Signature.reader.enc x := by
+  cases s <;> first | rfl | (simp [Sig.codec, CoinbaseData.reader, SECP256k1Signature.reader, SignableEquivalent.reader, Codec.seq, Codec.fixed, Codec.skip]; done)
 
 end GenTie
